@@ -18,7 +18,7 @@
    * `into`, `try_into`, `unwrap`, `as_mut_slice`, `as_slice`, `reborrow` are the identity (in /repo they
      only convert between views of the same bytes); `clone` yields a copy of the data;
    * integer literals without suffix are [VLit] and take the type of the other operand. *)
-From BM Require Export Cipher Ints Mir.
+From BM Require Export Cipher Ints Mir Plumbing.
 Local Open Scope string_scope.
 Local Open Scope nat_scope.
 Infix "=s" := String.eqb (at level 70).
@@ -30,7 +30,9 @@ Inductive place :=
 | PSlice (p : place) (lo len : nat)
 | POut (p : place)
 | PGet (p : place) (i : nat)
-| PCells (p : place) (lo len : nat).       (* a run of blocks of an InOutBuf<Block> *)
+| PCells (p : place) (lo len : nat)         (* a run of blocks of an InOutBuf<Block> *)
+| PBlocks (p : place) (off nb bs : nat)    (* the nb whole blocks of an InOutBuf<u8> from byte off, as InOutBuf<Block> *)
+| PBytes (p : place) (off len : nat).      (* a sub-InOutBuf<u8> *)
 
 Inductive val :=
 | VUnit
@@ -55,7 +57,8 @@ Inductive val :=
 | VGroups (q : place) (w n : nat)          (* `blocks.into_chunks()`: n groups of w blocks of the InOutBuf at q *)
 | VChunks (q : place) (cs n total : nat)   (* `q.chunks_exact_mut(cs)`: n whole chunks of a slice of length total *)
 | VFmt (out : list string)
-| VResult (ok : bool) (v : val).          (* Result<_, _> *)
+| VResult (ok : bool) (v : val)           (* Result<_, _> *)
+| VBuf (al : bool) (inb outb : list N).    (* InOutBuf<u8>: aliasing flag, input side, output side *)
 
 Definition env := list (string * val).
 
@@ -123,6 +126,7 @@ Fixpoint rd (e : env) (p : place) : option val :=
       match rd e p with
       | Some (VCell c) => Some (VBlk (rd_out c))
       | Some (VCells cs) => Some (VBlks (map rd_out cs))
+      | Some (VBuf _ _ o) => Some (VBlk o)
       | _ => None
       end
   | PGet p i =>
@@ -134,6 +138,22 @@ Fixpoint rd (e : env) (p : place) : option val :=
   | PCells p lo len =>
       match rd e p with
       | Some (VCells cs) => if fits lo len (length cs) then Some (VCells (firstn len (skipn lo cs))) else None
+      | _ => None
+      end
+  | PBlocks p off nb bs =>
+      match rd e p with
+      | Some (VBuf al i o) =>
+          if fits off (nb * bs) (length o) && fits off (nb * bs) (length i)
+          then Some (VCells (cells_of bs al (firstn (nb * bs) (skipn off i)) (firstn (nb * bs) (skipn off o))))
+          else None
+      | _ => None
+      end
+  | PBytes p off len =>
+      match rd e p with
+      | Some (VBuf al i o) =>
+          if fits off len (length o) && fits off len (length i)
+          then Some (VBuf al (firstn len (skipn off i)) (firstn len (skipn off o)))
+          else None
       | _ => None
       end
   end.
@@ -163,6 +183,7 @@ Fixpoint wr (e : env) (p : place) (v : val) : option env :=
       match rd e p, v with
       | Some (VCell c), VBlk b => wr e p (VCell (wr_out c b))
       | Some (VCells cs), VBlks bs => if len_eq (length cs) (length bs) then wr e p (VCells (map2 wr_out cs bs)) else None
+      | Some (VBuf al i o), VBlk b => if len_eq (length b) (length o) then wr e p (VBuf al i b) else None
       | _, _ => None
       end
   | PGet p i =>
@@ -174,6 +195,19 @@ Fixpoint wr (e : env) (p : place) (v : val) : option env :=
       match rd e p, v with
       | Some (VCells cs), VCells s =>
           if fits lo len (length cs) && len_eq (length s) len then wr e p (VCells (csplice lo len s cs)) else None
+      | _, _ => None
+      end
+  | PBlocks p off nb bs =>                       (* only the output sides of the cells can have changed *)
+      match rd e p, v with
+      | Some (VBuf al i o), VCells cs =>
+          if fits off (nb * bs) (length o) && len_eq (length (outs_of cs)) (nb * bs)
+          then wr e p (VBuf al i (splice off (nb * bs) (outs_of cs) o)) else None
+      | _, _ => None
+      end
+  | PBytes p off len =>
+      match rd e p, v with
+      | Some (VBuf al i o), VBuf _ _ o' =>
+          if fits off len (length o) && len_eq (length o') len then wr e p (VBuf al i (splice off len o' o)) else None
       | _, _ => None
       end
   end.
@@ -245,6 +279,7 @@ Definition vlen (v : val) : option nat :=
   | VBlks l => Some (length l)
   | VWords _ l => Some (length l)
   | VCells cs => Some (length cs)
+  | VBuf _ _ o => Some (length o)
   | _ => None
   end.
 
@@ -307,6 +342,11 @@ Definition data_method (C : ctx) (recv : val) (m : string) (args : list val) : o
   | VCells cs, [] =>
       if (m =s "clone_in") || (m =s "get_in") then Some (VBlks (map rd_in cs))
       else if m =s "len" then Some (VNat (length cs)) else None
+  | VBuf al i o, [] =>
+      if m =s "len" then Some (VNat (length o))
+      else if m =s "is_empty" then Some (VBoolV (len_eq (length o) 0))
+      else if m =s "get_in" then Some (VBlk (if al then o else i))
+      else None
   | VCellB c i, [] =>
       if m =s "clone_in" then (if in_range i (length (rd_in c)) then Some (VInt 8 (nth i (rd_in c) 0%N)) else None) else None
   | VBlk b, [] =>
@@ -863,6 +903,17 @@ Section Interp.
                   else if m =s "into_chunks" then
                     (* InOutBuf<Block>::into_chunks::<N>(): the chunk size N is fixed by type inference (the backend's
                        ParBlocksSize in cts/src/lib.rs); the context supplies it as the constant "into_chunks::N" *)
+                    match (match as_place e r with Some q => rd e q | None => None end), lookup "into_chunks::BS" (consts C) with
+                    | Some (VBuf _ _ o), Some (VNat bsz) =>     (* InOutBuf<u8> -> (whole blocks, tail); block size from the context *)
+                        match as_place e r, rs with
+                        | Some q, [] =>
+                            if in_range 0 bsz then
+                              let n := ndiv (length o) bsz in
+                              Some (Norm e (RV (VTuple [VRef (PBlocks q 0 n bsz); VRef (PBytes q (n * bsz) (length o - n * bsz))])))
+                            else None
+                        | _, _ => None
+                        end
+                    | _, _ =>
                     match as_place e r, rs, lookup "into_chunks::N" (consts C) with
                     | Some q, [], Some (VNat w) =>
                         match rd e q with
@@ -874,6 +925,7 @@ Section Interp.
                         | _ => None
                         end
                     | _, _, _ => None
+                    end
                     end
                   else if m =s "into_remainder" then
                     match as_data e r, rs with
@@ -983,7 +1035,13 @@ Section Interp.
               | inl None => None
               | inr fl => Some fl
               end)
-        | ECast _ _ | EMacro _ _ | EClosure _ _ | EUn _ _ | EUnsupported _ => None
+        | EUn op x =>
+            bindF (ev e x) (fun e r =>
+              match as_data e r with
+              | Some (VBoolV b) => if op =s "!" then Some (Norm e (RV (VBoolV (negb b)))) else None
+              | _ => None
+              end)
+        | ECast _ _ | EMacro _ _ | EClosure _ _ | EUnsupported _ => None
         end.
 
   End WithLoops.
